@@ -696,7 +696,12 @@ impl FinishedSession {
         if let Some(rollback_delta) = self.rollback_delta {
             // UNWRAP: if rollback_delta is `Some`, then rollback must be also `Some`.
             let rollback = nomt.store.rollback().unwrap();
-            rollback.commit(rollback_delta)?;
+            // A failed append leaves the rollback log (and the already advanced root) in an
+            // undefined state: the handle must not accept further commits.
+            if let Err(e) = rollback.commit(rollback_delta) {
+                nomt.store.poison();
+                return Err(e);
+            }
         }
 
         nomt.store.commit(
@@ -744,7 +749,14 @@ impl FinishedSession {
         if let Some(rollback_delta) = self.rollback_delta {
             // UNWRAP: if rollback_delta is `Some`, then rollback must be also `Some`.
             let rollback = nomt.store.rollback().unwrap();
-            if let Some(delta) = rollback.commit_nonblocking(rollback_delta)? {
+            let maybe_delta = match rollback.commit_nonblocking(rollback_delta) {
+                Ok(maybe_delta) => maybe_delta,
+                Err(e) => {
+                    nomt.store.poison();
+                    return Err(e);
+                }
+            };
+            if let Some(delta) = maybe_delta {
                 self.rollback_delta = Some(delta);
                 return Ok(Some(self));
             }
@@ -822,7 +834,12 @@ impl Overlay {
         if let Some(rollback_delta) = rollback_delta {
             // UNWRAP: if rollback_delta is `Some`, then rollback must be also `Some`.
             let rollback = nomt.store.rollback().unwrap();
-            rollback.commit(rollback_delta)?;
+            // A failed append leaves the rollback log (and the already advanced root) in an
+            // undefined state: the handle must not accept further commits.
+            if let Err(e) = rollback.commit(rollback_delta) {
+                nomt.store.poison();
+                return Err(e);
+            }
         }
 
         nomt.store
@@ -879,7 +896,12 @@ impl Overlay {
         if let Some(rollback_delta) = rollback_delta {
             // UNWRAP: if rollback_delta is `Some`, then rollback must be also `Some`.
             let rollback = nomt.store.rollback().unwrap();
-            rollback.commit(rollback_delta)?;
+            // A failed append leaves the rollback log (and the already advanced root) in an
+            // undefined state: the handle must not accept further commits.
+            if let Err(e) = rollback.commit(rollback_delta) {
+                nomt.store.poison();
+                return Err(e);
+            }
         }
 
         nomt.store
